@@ -689,7 +689,7 @@ class C06(Prop, ScriptGen):
     theorems = ['BtcVerif.C06.' + t for t in (
         'castToBool_equiv', 'num_encode_equiv', 'num_decode_equiv', 'num_operand_equiv', 'tokenise_equiv',
         'predicates_equiv', 'step_equiv', 'eval_equiv_partial', 'eval_fails_iff_partial', 'eval_stack_partial',
-        'verify_equiv_partial')]
+        'verify_equiv_partial', 'findAndDelete_equiv', 'eval_equiv', 'eval_fails_iff', 'eval_stack', 'verify_equiv')]
     anchors = [('bitcoin/core/scripteval.py', f) for f in (
         '_EvalScript', '_CheckMultiSig', '_CheckSig', '_BinOp', '_UnaryOp', '_CastToBool', '_CastToBigNum',
         '_CheckExec', 'EvalScript', 'VerifyScript')] + \
@@ -703,6 +703,8 @@ class C06(Prop, ScriptGen):
                     'signature checking: Crypto.Secp256k1 (strict DER, SEC1) stands for OpenSSL on the property\'s '
                     'signature domain; sighash transcription in Driver/C06.lean (C03 proves the sighash itself)']
     assumptions = ['signatures empty or strictly DER, public keys well-formed SEC1 or plainly malformed',
+                   'eval_equiv / verify_equiv: 0 <= inIdx; sigCheck insensitive to a leading OP_CODESEPARATOR of the '
+                   'script code (C03); hash outputs <= 520 bytes; EvalScript initial stack <= 1000 items < 2^32 bytes',
                    'transaction fields in wire range (C01 WF)']
     rule = ('all 1-opcode programs x ~60 stacks x 12 admissible flag sets (exhaustive); grammar programs with IF nests, '
             'CODESEPARATOR/CHECKSIG with real signatures, CHECKMULTISIG 0..20 keys; limit probes at every bound +-1; '
